@@ -81,7 +81,7 @@ func ValidateWalks(run *evid.Run, walks []OneWalk, workers int) (ValStats, error
 		}
 		vs.Accepted += wi
 		vs.Rejected++
-		d := diagnose(w, stepIdx, invViolated, res)
+		d := diagnose(w, stepIdx, invViolated, res, run.Prop)
 		run.Report(d)
 		remaining = remaining[wi+1:]
 	}
@@ -103,7 +103,7 @@ type expectRec struct {
 
 // diagnose asks TLC what the specification allows at the rejected event and
 // classifies the difference.
-func diagnose(w OneWalk, stepIdx int, inv bool, res *tlcrun.Result) evid.Div {
+func diagnose(w OneWalk, stepIdx int, inv bool, res *tlcrun.Result, forProp string) evid.Div {
 	ev := w.Events[stepIdx]
 	hist := w.Hist
 	if stepIdx <= len(hist) {
@@ -137,6 +137,14 @@ func diagnose(w OneWalk, stepIdx int, inv bool, res *tlcrun.Result) evid.Div {
 	e := &Edge{Cfg: w.Cfg}
 	e.Lbl = x.Lbl
 	prop, what := classify(e, ev, x)
+	if what == "state" && prop != "C03" && 		(ev.St.From != x.St.From || ev.St.Rcpts != x.St.Rcpts || ev.St.Helo != x.St.Helo || ev.St.Session != x.St.Session || ev.St.Bdat != x.St.Bdat) {
+		// greeting / session / envelope fields are C03's whatever the command was
+		// (only the first divergence of a trace is reported, so this one goes to
+		// the property whose check is running when it is one of the two)
+		if forProp == "C03" {
+			prop = "C03"
+		}
+	}
 	return evid.Div{Prop: prop, Key: fmt.Sprintf("trace:%s:%s:lmtp=%v", what, cmd, w.Cfg.Lmtp),
 		Msg: fmt.Sprintf("recorded step %s rejected by the specification (%s): spec allows replies %v callbacks %v state %+v; recorded replies %v callbacks %v state %+v; transcript tail %v",
 			cmd, what, x.Lbl.Replies, x.Lbl.Cbs, x.St, ev.Replies, ev.Cbs, ev.St, tailHist(hist)), Replay: rp}
